@@ -8,7 +8,7 @@ from .core import Violation, Reject, crash
 
 PID = "C12"
 LEVEL = "exploration"
-RULE = ("generated sequence inputs of six kinds - '-seq NAME:n' lists, .txt (single-space separated, random "
+RULE = ("generated sequence inputs of six kinds - '-seq NAME:n' lists, .txt (single-space separated, names also with lower-case letters, random "
         "line breaks), .fasta and .ig (DNA/RNA/protein alphabets, random line lengths, comment lines, "
         "terminator 1/2, trailing second sequence), node-link .json ('edges' or 'links' key, with/without "
         "resids, shuffled records) and gen_seq specifications (1-4 macros of 1-4 levels x branching 1-3, "
